@@ -161,3 +161,56 @@ def has_cmp(items, lhs, ops, rhs):
         if it[0] == "cmp" and it[1] == lhs and it[2] in ops and it[3] == rhs:
             return it
     return None
+
+
+def _diverges(n):
+    """the expression never completes normally (ends in return/break/continue/panic)"""
+    n = strip(n)
+    k = n["k"]
+    if k in ("Ret", "Break", "Continue"):
+        return True
+    if k == "Block":
+        last = n.get("expr")
+        if last is None and n["stmts"]:
+            last = n["stmts"][-1]
+        return last is not None and _diverges(last)
+    if k == "Call":
+        c = n.get("callee") or ""
+        return c.startswith(("core::panicking::", "std::rt::panic", "std::rt::begin_panic", "core::panicking::assert_failed")) or n.get("ty") == "!"
+    if k == "If":
+        return "e" in n and _diverges(n["t"]) and _diverges(n["e"])
+    if k == "Match":
+        return all(_diverges(a["body"]) for a in n["arms"]) and bool(n["arms"])
+    return n.get("ty") == "!"
+
+
+def early_facts(tree, node, stop=None):
+    """facts established by earlier `if c { diverge }` statements (early returns, asserts) in the enclosing
+    blocks of `node`: the negation of c holds afterwards"""
+    out = []
+    child = node
+    for a in tree.ancestors(node):
+        if stop is not None and a is stop:
+            break
+        if a["k"] == "Block":
+            for st in a["stmts"]:
+                if st is child:
+                    break
+                s = st
+                # assert! expands to a block/if; look one level into expansion blocks
+                cands = [s]
+                if s["k"] == "Block":
+                    cands = list(s["stmts"]) + ([s["expr"]] if "expr" in s else [])
+                for c in cands:
+                    if c["k"] == "If" and "e" not in c and _diverges(c["t"]):
+                        out.extend(atoms(c["c"], False))
+                    elif c["k"] == "Match" and c.get("src") == "Normal" and hirq.expn(c)[1] in ("macro:assert_eq", "macro:assert_ne"):
+                        # assert_eq!(a, b): match (&a, &b) { (l, r) => if !(*l == *r) { panic } }
+                        tup = strip(c["e"])
+                        if tup["k"] == "Tup" and len(tup["es"]) == 2:
+                            a_, b_ = nf(tup["es"][0], True), nf(tup["es"][1], True)
+                            if b_ < a_:
+                                a_, b_ = b_, a_
+                            out.append(("cmp", a_, "==" if hirq.expn(c)[1] == "macro:assert_eq" else "!=", b_))
+        child = a
+    return out
